@@ -71,6 +71,11 @@ def insertions(draw, d, next_to_ref=False):
             v = draw(st.one_of(V.inst, GS.ODD))
         out.append({"pos": draw(st.integers(0, 50)), "name": n, "value": v, "kind": kind,
                     "front": draw(st.booleans())})
+    if d == 3 and draw(st.integers(0, 3)) == 0:
+        # an annotation right next to Draft 3's boolean `required`: a default does not make a property less required
+        out.append({"pos": draw(st.integers(0, 50)), "name": draw(st.sampled_from(["default", "title", "description"])),
+                    "value": draw(st.sampled_from([None, False, 0, "d", {}, [1]])), "kind": "annotation-at-required",
+                    "front": draw(st.booleans())})
     k = draw(st.integers(0, 11))
     if k == 0:
         # a crowd: forty unknown members at one and the same position (vendor extensions, documentation fields)
@@ -133,12 +138,17 @@ def apply_insertions(d, schema, ins, allow_ref_objects, only_ref_objects=False):
     pos = [p for p, sub in walk.walk(d, s2) if isinstance(sub, dict)
            and (allow_ref_objects or "$ref" not in sub)
            and (not only_ref_objects or "$ref" in sub)]
+    req_pos = [p for p, sub in walk.walk(d, s2) if isinstance(sub, dict) and sub.get("required") is True and "$ref" not in sub]
     # never inside definitions' *map* itself; walk already yields only schema positions
     applied = 0
     for i in ins:
         if not pos:
             break
         p = pos[i["pos"] % len(pos)]
+        if i["kind"] == "annotation-at-required":
+            if not req_pos:
+                continue
+            p = req_pos[i["pos"] % len(req_pos)]
         node = walk.get(s2, p)
         if i["name"] in node:
             continue
